@@ -48,6 +48,7 @@ def run(rep, tier):
     rule_i386_dispatch(rep)
     rule_x86_rounds(rep, tier)
     rule_i386_rounds(rep, tier)
+    rule_m68k_frame(rep)
 
 
 def _run(rep, tier):
@@ -642,3 +643,50 @@ def rule_i386_rounds(rep, tier):
         except Unsupported as e:
             rep.unproved_item(rid, "round %d: %s" % (r, e))
     rep.floor_discharged(rid, 12)
+
+
+# ---------------------------------------------------------------------------
+def rule_m68k_frame(rep):
+    """D3m: m68k / ColdFire ascon_permute keeps its spills inside the frame it
+    allocates: every `-N(%fp)` operand (N bytes below the frame pointer, 4-byte
+    accesses) lies within the `link.w %fp, #-F` allocation, and positive
+    offsets only address the return linkage and the two arguments.  Checked on
+    the text preprocessed for classic 68k and for ColdFire (the two variants
+    spill a different number of words).  Memory below the stack pointer may be
+    overwritten by an interrupt at any time."""
+    rid = "C18.D3m"
+    rep.rule(rid, "m68k / ColdFire ascon_permute: frame-relative accesses stay inside the allocated frame")
+    rel = "src/core/ascon-asm-m68k.S"
+    path = os.path.join(repo.REPO, rel)
+    if not os.path.exists(path):
+        rep.broken.append("%s: %s not found" % (rid, rel))
+        return
+    for variant, defs in (("m68k", []), ("coldfire", ["-D__mcoldfire__=1"])):
+        p = repo.run(["clang", "-E", "-P", "-undef", "-D__m68k__=1"] + defs + ["-I", os.path.join(repo.REPO, "src"),
+                      "-I", os.path.join(repo.REPO, "src", "core"), "-x", "assembler-with-cpp", path])
+        lines = [l.strip() for l in p.stdout.decode(errors="replace").splitlines() if l.strip()]
+        links = [l for l in lines if l.startswith("link")]
+        if len(links) != 1:
+            rep.unproved_item(rid, "%s: %d link instructions" % (variant, len(links)))
+            continue
+        mm = re.search(r"#-(\d+)", links[0])
+        if not mm:
+            rep.unproved_item(rid, "%s: frame size not recognised in %r" % (variant, links[0]))
+            continue
+        frame = int(mm.group(1))
+        offs = [int(x) for l in lines for x in re.findall(r"(-?\d+)\(%fp\)", l)]
+        if len(offs) < 10:
+            rep.broken.append("%s: only %d frame accesses found in the %s variant" % (rid, len(offs), variant))
+            continue
+        low = min(offs)
+        bad_low = sorted(set(o for o in offs if o < -frame))
+        bad_mis = sorted(set(o for o in offs if o < 0 and o % 4))
+        bad_high = sorted(set(o for o in offs if o > 12))
+        # movem / pre-decrement pushes below the frame are stack allocation by the instruction itself: not %fp-relative
+        if bad_low or bad_mis or bad_high:
+            rep.violation(rid, "ascon_permute:%s:frame" % variant, path,
+                          "the %s variant of the m68k ascon_permute allocates a frame of %d bytes (%s) but accesses %s(%%fp): the "
+                          "word at or below the stack pointer can be overwritten by an interrupt between the spill and the reload" % (
+                              variant, frame, links[0], ", ".join(str(o) for o in (bad_low or bad_mis or bad_high))))
+        else:
+            rep.instance(rid, 1, {"variant": variant, "frame": frame, "lowest_offset": low, "accesses": len(offs)})
